@@ -1,4 +1,5 @@
 """C20 - --fix_only fixes what it lists and nothing else."""
+import copy
 import json
 import os
 import random
@@ -144,7 +145,7 @@ def run_case(case, tier):
                 R = rep[rid]
                 S[rid] = ["all"] if rnd.random() < 0.25 else sorted(rnd.sample(R, k=max(1, rnd.randint(1, max(1, len(R) - 1)))))
         concrete["S"] = S
-        fo = {"fix": {"rule": S}}
+        fo = {"fix": {"rule": copy.deepcopy(S)}}  # the tool may write into the selection it is handed; the case keeps its own copy
         fo_all = {"fix": {"rule": {rid: ["all"] for rid in S}}}
         obs = engine.run(new, style, None, props=("C20",), fix_only=fo)
         obs_all = engine.run(new, style, None, props=("C20",), fix_only=fo_all)
